@@ -120,8 +120,17 @@ def run(ctx):
         dt = float(rng.choice([0.01, 0.005, 1 / 128, 0.004, 1 / 75]))
         nsmp = int(rng.integers(60, 400))
         nw = int(rng.integers(2, 11))
+        # a fifth of the cases: the window length is an exact multiple of the STA length and a transient sits in the LAST
+        # short-term chunk (every whole chunk of the window is examined, also the one that ends with the window)
+        exact_nsta = int(rng.integers(5, 40)) if rng.random() < 0.2 else None
+        if exact_nsta:
+            nsmp = exact_nsta * int(rng.integers(3, 10))
         wins = gen_windows(rng, nw, nsmp, dt)
         comps = [COMPS, ["vt"], ["ns", "ew"], ["ew", "vt"], ["vt", "ns", "ew"]][int(rng.integers(0, 5))]
+        if exact_nsta:
+            w = wins[int(rng.integers(0, nw))]
+            a = np.array(w[comps[0]]); a[nsmp - max(2, exact_nsta // 2):] *= rng.uniform(20, 80); w[comps[0]] = a.tolist()
+            ctx.count("stalta:last-chunk-transient")
         recs = [pg.make_srecord(w) for w in wins]
         kind = ["none", "T", "A"][i % 3]
         hv = None
@@ -145,7 +154,10 @@ def run(ctx):
             sta = float(rng.choice([rng.uniform(2 * dt, dur / 4), 10 * dt, 1.0 if dur > 1.0 else 5 * dt, dur * 2 if rng.random() < 0.1 else 3 * dt]))
             lta = float(rng.choice([rng.uniform(min(sta, dur * 0.5), dur), dur / 2, dur * 3 if rng.random() < 0.1 else dur * 0.9]))
             lo = float(rng.choice([0.2, 0.1, 0.5, rng.uniform(0.05, 0.6)])); hi = float(rng.choice([2.5, 1.5, 4.0, rng.uniform(1.2, 6)]))
-            if extreme < 0.12:
+            if exact_nsta:
+                sta, lta = (exact_nsta + 0.5) * dt, 0.6 * dur
+                lo, hi = 0.2, 2.5
+            elif extreme < 0.12:
                 lo, hi = 0.0, 1e12
             elif extreme > 0.94:
                 lo, hi = 0.999, 1.001
